@@ -187,7 +187,7 @@ def corpus_cases():
 
 def chunks(tier, seed):
     ch = [{"kind": "corpus"}]
-    nrand = {"quick": 4000, "thorough": 100000}.get(tier, 12000)
+    nrand = {"quick": 4000, "thorough": 400000}.get(tier, 12000)
     per = max(1, nrand // 16)
     for i in range(16):
         ch.append({"kind": "random", "seed": seed * 1000 + i, "n": per, "binary": i % 4 == 3})
